@@ -107,6 +107,27 @@ def modules():
     f.add_state_order(ci, last)
     f.set_outputs(last)
     out.append(("call-indirect-with-order-edges", m.hugr))
+
+    # a tail loop whose just-outputs row differs from its rest row; a basic block with a non-empty extension delta; non-finite floats
+    import math
+
+    from hugr.std.float import FloatVal
+    m = Module()
+    f = m.define_function("loop_and_block", [tys.Qubit, tys.Bool])
+    q, b = f.inputs()
+    tl = f.add_tail_loop([q], [b])
+    tq, tb = tl.inputs()
+    brk = tl.add_op(ops.Tag(1, tys.Sum([[tys.Qubit], [tys.Qubit, INT_T]])), tq, tl.load(IntVal(1, 5)))
+    tl.set_loop_outputs(brk, tb)
+    cfg = f.add_cfg(tl.parent_node[2])
+    e = cfg.add_entry()
+    e.set_single_succ_outputs(e.inputs()[0])
+    e.parent_op.extension_delta = ["verif.ext", "logic"]
+    cfg.branch_exit(e[0])
+    inf = f.load(FloatVal(math.inf))
+    n = f.add_op(Not, cfg.parent_node[0], metadata={"nan": math.nan, "ninf": -math.inf, "ok": 1.5})
+    f.set_outputs(tl.parent_node[0], tl.parent_node[1], n, inf)
+    out.append(("tailloop-rows-block-delta-nonfinite-floats", m.hugr))
     return out
 
 
@@ -130,6 +151,10 @@ def extensions():
     e2.add_type_def(ext.TypeDef("Other", "v2 only", [], ext.ExplicitBound(tys.TypeBound.Any)))
     out.append(("custom-v2-same-name", e2))
     out += [("logic", LOGIC), ("int.types", INT_TYPES_EXTENSION), ("int", INT_OPS_EXTENSION)]
+    # requirement names handed over as a list with a repeated entry (the sum of two signatures' requirement lists): still a set on the wire
+    e3 = ext.Extension("verif.reqs", ext.Version(0, 1, 0), runtime_reqs=["logic", "prelude", "logic"])
+    e3.add_type_def(ext.TypeDef("T", "", [], ext.ExplicitBound(tys.TypeBound.Copyable)))
+    out.append(("requirements-given-as-list", e3))
     return out
 
 
